@@ -288,6 +288,24 @@ def declare(rep):
     rep.rule("C14.out", "result is the stored vector's components", floor=8)
 
 
+class only:
+    """forward only the rules that are declared in the report"""
+
+    def __init__(self, rep):
+        self.rep = rep
+
+    def __getattr__(self, k):
+        return getattr(self.rep, k)
+
+    def ok(self, rid, *a, **kw):
+        if rid in self.rep.rules:
+            self.rep.ok(rid, *a, **kw)
+
+    def fail(self, rid, *a, **kw):
+        if rid in self.rep.rules:
+            self.rep.fail(rid, *a, **kw)
+
+
 def check(tier):
     from . import c14_hilbert
     rep = Report("C14", tier, "proof")
@@ -295,6 +313,12 @@ def check(tier):
     c14_hilbert.declare(rep)
     hs = run(rep, tier)
     c14_hilbert.run(rep, tier)
+    # the published position must also be where a layout conversion WRITES each element (rule C05.b of relayout/c05)
+    from . import c05
+    c05.declare(rep)
+    for r in ("C05.a", "C05.cuda", "C05.c", "C05.d", "C05.e"):
+        rep.rules.pop(r, None)
+    c05.run_conversions(only(rep), "quick")
     rep.assumptions = ["coordinates non-negative and below 2^floor(64/N) (the property's domain)",
                        "Hilbert: only side-length/extent agreement is decided; bijectivity and adjacency of the walk are not (data-dependent loop)"]
     rep.extra["instantiations"] = [h.name for h in hs]
